@@ -21,8 +21,10 @@
 (* behaviours are replayed step by step into the real library              *)
 (* (harness/session.py) and `last` is compared with what really happened.  *)
 (*                                                                         *)
-(* Content is abstract: a location holds a product VERSION (0, 1, ...: the *)
-(* same file names, different bytes everywhere).  A tree, an index cell    *)
+(* Content is abstract: a location holds a product VERSION named after the  *)
+(* place it was delivered to and a counter ("P0", "P1", "Q0", ...: the same *)
+(* file names, different bytes everywhere); CopyTo carries a version -- and  *)
+(* the index files lying next to its images -- to another location.  A tree, an index cell    *)
 (* and a loaded array are identified by the version they were derived      *)
 (* from.                                                                   *)
 (***************************************************************************)
@@ -55,7 +57,8 @@ vars == <<store, local, adjacent, cacheOK, tree, ops, last>>
 K        == Len(Images)
 ImageSet == {Images[i] : i \in 1..K}
 Files    == {"summary", "vol", "led", "trl"} \cup ImageSet
-NoVer    == -1
+NoVer    == "none"
+VerName(l, v) == l \o ToString(v)                    \* the v-th delivery made to location l
 \* an index cell; `asked` = it exists because the user asked for it (create_cache, the CLI, or the environment planted it).  Cells the
 \* library creates on its own can only enter through the trace specification's resynchronisation (Trace_Alos2!Resync): whatever is later
 \* served from such a cell is the library's responsibility, so it never excuses a stale tree.
@@ -68,7 +71,7 @@ NoTree   == [live |-> FALSE, loc |-> "-", ver |-> NoVer, rpc |-> 0, src |-> [m \
              cver |-> [m \in ImageSet |-> NoVer], copyOf |-> 0, loaded |-> {}, mutated |-> {}]
 Quiet    == [op |-> "init"]
 
-Init == /\ store = [l \in Locs |-> [ver |-> 0, dmg |-> [f \in Files |-> "ok"]]]
+Init == /\ store = [l \in Locs |-> [ver |-> VerName(l, 0), dmg |-> [f \in Files |-> "ok"]]]
         /\ local = [l \in Locs |-> [m \in ImageSet |-> Absent]]
         /\ adjacent = [l \in Locs |-> [m \in ImageSet |-> Absent]]
         /\ cacheOK = TRUE
@@ -198,11 +201,20 @@ Cli(l, m, r, target) ==
 \* ------------------------------------------------------------------ environment
 \* a new delivery of the scene under the same file names (re-processing, re-download): every byte changes
 Redeliver(l, v) ==
-    /\ EnvRedeliver /\ ops < MaxOps /\ v # store[l].ver
-    /\ store' = [store EXCEPT ![l] = [ver |-> v, dmg |-> [f \in Files |-> "ok"]]]
-    /\ last' = [op |-> "redeliver", loc |-> l, ver |-> v]
+    /\ EnvRedeliver /\ ops < MaxOps /\ VerName(l, v) # store[l].ver
+    /\ store' = [store EXCEPT ![l] = [ver |-> VerName(l, v), dmg |-> [f \in Files |-> "ok"]]]
+    /\ last' = [op |-> "redeliver", loc |-> l, ver |-> VerName(l, v)]
     /\ ops' = ops + 1
     /\ UNCHANGED <<local, adjacent, cacheOK, tree>>
+\* the product directory at src -- images, and the <image>.index files lying next to them -- is copied over the one at dst (archiving,
+\* an upload, a move).  The user cache is keyed by the location: whatever it holds for dst stays.
+CopyTo(src, dst) ==
+    /\ EnvRedeliver /\ ops < MaxOps /\ src # dst
+    /\ store' = [store EXCEPT ![dst] = store[src]]
+    /\ adjacent' = [adjacent EXCEPT ![dst] = adjacent[src]]
+    /\ last' = [op |-> "copyto", loc |-> src, dst |-> dst, ver |-> store[src].ver]
+    /\ ops' = ops + 1
+    /\ UNCHANGED <<local, cacheOK, tree>>
 Damage(l, f, how) ==
     /\ EnvDamage /\ ops < MaxOps /\ store[l].dmg[f] = "ok"
     /\ ~(f = "summary" /\ how = "cut")      \* a shortened summary text may still be a well-formed one: outside C18
@@ -244,6 +256,7 @@ Next == \/ \E l \in Locs, uc, cc \in BOOLEAN, r \in Rpcs, t \in Slots : Open(l, 
         \/ \E t, t2 \in Slots : Copy(t, t2)
         \/ \E t \in Slots : Drop(t)
         \/ \E l \in Locs, m \in ImageSet, r \in Rpcs, tg \in {"adjacent", "cachedir"} : Cli(l, m, r, tg)
+        \/ \E src, dst \in Locs : CopyTo(src, dst)
         \/ \E l \in Locs : (\E v \in Versions : Redeliver(l, v)) \/ Restore(l) \/ \E f \in Files, h \in {"missing", "cut"} : Damage(l, f, h)
         \/ \E l \in Locs, m \in ImageSet, w \in {"local", "adjacent"}, c \in {Absent, Torn, Blocked} : CellSet(l, m, w, c)
         \/ \E ok \in BOOLEAN : CacheDir(ok)
@@ -252,7 +265,7 @@ Next == \/ \E l \in Locs, uc, cc \in BOOLEAN, r \in Rpcs, t \in Slots : Open(l, 
 Spec == Init /\ [][Next]_vars
 
 \* ------------------------------------------------------------------ what the design guarantees (checked by TLC)
-TypeOK == /\ \A l \in Locs : store[l].ver \in Versions
+TypeOK == /\ \A l \in Locs : store[l].ver \in { VerName(x, v) : x \in Locs, v \in Versions }
           /\ \A l \in Locs, m \in ImageSet : local[l][m].st \in {"absent", "torn", "full", "blocked"} /\ adjacent[l][m].st \in {"absent", "torn", "full"}
           /\ ops \in 0..MaxOps
 \* C18: a tree is only returned when summary, VOL and LED are intact and every image that was parsed is intact
@@ -277,7 +290,7 @@ RepairAfterCreate == last.op = "open" /\ last.cc /\ last.outcome = "tree" =>
                         \A m \in ImageSet : last.src[m] = "parse" => local[last.loc][m].st = "full"
 \* C10: opens write user-cache cells only when asked, and only as complete documents of the current version
 WritesOnlyWhenAsked == [][\A l \in Locs, m \in ImageSet :
-       /\ (adjacent'[l][m] # adjacent[l][m] => last'.op \in {"cli", "delete", "tear"})
+       /\ (adjacent'[l][m] # adjacent[l][m] => last'.op \in {"cli", "delete", "tear", "copyto"})
        /\ (local'[l][m] # local[l][m] =>
               (last'.op \in {"cli", "delete", "tear", "purge", "block"}) \/ (last'.op = "open" /\ last'.cc /\ local'[l][m] = FullOf(store[l].ver)))]_vars
 \* C10 / C16 / C13: a judged open returns the current version of everything, whatever happened before
